@@ -183,6 +183,8 @@ impl XDiscreteDistribution {
                 })
                 .take(n)
                 .collect(),
+            // nothing is drawn: statrs' sampling loop counts down from the number of draws and never meets zero
+            Self::Hypergeometric(i) if i.draws() == 0 => vec![LazyBigint::from(0u64); n],
             Self::Hypergeometric(i) => i
                 .sample_iter(rng)
                 .map(|p| LazyBigint::from_f64(p).unwrap())
